@@ -29,9 +29,9 @@ type c20scenario struct {
 }
 
 func seedSecrets(thorough bool) [][]byte {
-	n := 256
+	n := 1024
 	if thorough {
-		n = 4096
+		n = 8192
 	}
 	var out [][]byte
 	for i := 0; i < n; i++ {
